@@ -85,7 +85,7 @@ def implOK (bf : Nat) (p : Params) (uxb : List UxB) (impl : String) : Bool :=
         (p.typ != "manual" || o.hours == q.hours))
   && (outs.length == p.to.length || outs.length == p.to.length + 1)
   && inC == outC                                                                    -- remaining coins go to change
-  && (outs.length == p.to.length + 1 → (match p.change with
+  && (outs.length != p.to.length + 1 || (match p.change with
         | some a => (outs.drop p.to.length).all (·.addr == a)
         | none => (outs.drop p.to.length).all (fun o => inputs.any (·.addr == o.addr))))
   && inH ≥ outH && inH - outH ≥ ceilDiv inH bf                                       -- burns at least the required fee
